@@ -169,12 +169,40 @@ pub fn withdraw(
     amount: Uint128,
     pre_paid_shortfall: Uint128,
 ) -> StdResult<Vec<SubMsg>> {
+    withdraw_with_reserve(
+        deps,
+        env,
+        state,
+        receiver,
+        eligible_collateral,
+        amount,
+        pre_paid_shortfall,
+        Uint128::zero(),
+    )
+}
+
+/// Same as `withdraw`, but additionally keeps `reserved` tokens in the vault for a transfer
+/// that the caller queues after the returned messages
+#[allow(clippy::too_many_arguments)]
+pub fn withdraw_with_reserve(
+    deps: Deps,
+    env: Env,
+    state: &mut State,
+    receiver: &Addr,
+    eligible_collateral: AssetInfo,
+    amount: Uint128,
+    pre_paid_shortfall: Uint128,
+    reserved: Uint128,
+) -> StdResult<Vec<SubMsg>> {
     let token_balance = query_token_balance(deps, eligible_collateral, env.contract.address)?;
 
     let mut messages: Vec<SubMsg> = vec![];
 
-    if token_balance.checked_add(pre_paid_shortfall)? < amount {
-        let shortfall = amount.checked_sub(token_balance.checked_add(pre_paid_shortfall)?)?;
+    let available = token_balance.checked_add(pre_paid_shortfall)?;
+    let required = amount.checked_add(reserved)?;
+
+    if available < required {
+        let shortfall = required.checked_sub(available)?;
 
         // add any shortfall to bad_debt
         state.prepaid_bad_debt = state.prepaid_bad_debt.checked_add(shortfall)?;
